@@ -18,8 +18,9 @@ import os, sys, json, time, hashlib, importlib, traceback, random, collections
 from concurrent.futures import ProcessPoolExecutor
 
 VERIF = os.path.dirname(os.path.dirname(os.path.abspath(__file__)))
-REPLAYS = os.path.join(VERIF, "replays")
-EVIDENCE = os.path.join(VERIF, "evidence")
+_OUT = os.environ.get("VERIF_OUT") or VERIF     # runs against scratch copies (seeded changes) write elsewhere
+REPLAYS = os.path.join(_OUT, "replays")
+EVIDENCE = os.path.join(_OUT, "evidence")
 KNOWN = os.path.join(VERIF, "known_findings.jsonl")
 MAX_STORED = 12  # violations whose details are stored per shard (all are counted)
 
